@@ -721,6 +721,54 @@ pub fn scenario(g: &mut Gen, k: u64) {
                     }
                 }
             }
+            // copies INSIDE one model whose files have different versions: package `vn` lives only in the newest file,
+            // package `vo` only in an older one; elements of `vn` with content that the older version does not permit
+            // are copied (copy and copy_at) into `vo`: the copy is filtered for the version of ITS destination
+            {
+                let mine: Vec<usize> = (0..g.ex.files.len()).filter(|f| g.ex.files[*f].model().ok().as_ref() == Some(&g.ex.models[0])).collect();
+                let fnew = mine.iter().copied().max_by_key(|f| g.ex.files[*f].version() as u32);
+                let fold = mine.iter().copied().min_by_key(|f| g.ex.files[*f].version() as u32);
+                let rk = g.ex.hidx.get(&g.ex.models[0].root_element()).copied();
+                if let (Some(fnew), Some(fold), Some(rk)) = (fnew, fold, rk) {
+                    let (vnew, vold) = (g.ex.files[fnew].version() as u32, g.ex.files[fold].version() as u32);
+                    if vold < vnew {
+                        if let Some(pk) = ok_h(&g.push(Op::GetOrCreate(rk, n.elidx("AR-PACKAGES")))) {
+                            let pvn = ok_h(&g.push(Op::GetOrCreateNamed(pk, n.elidx("AR-PACKAGE"), b"vn".to_vec())));
+                            let pvo = ok_h(&g.push(Op::GetOrCreateNamed(pk, n.elidx("AR-PACKAGE"), b"vo".to_vec())));
+                            if let (Some(pvn), Some(pvo)) = (pvn, pvo) {
+                                for o in &mine {
+                                    if g.ex.files[*o].version() as u32 != vnew {
+                                        g.push(Op::RemoveFromFile(pvn, *o));
+                                    }
+                                    if *o != fold {
+                                        g.push(Op::RemoveFromFile(pvo, *o));
+                                    }
+                                }
+                                let en = ok_h(&g.push(Op::GetOrCreate(pvn, n.elidx("ELEMENTS"))));
+                                let eo = ok_h(&g.push(Op::GetOrCreate(pvo, n.elidx("ELEMENTS"))));
+                                if let (Some(en), Some(eo)) = (en, eo) {
+                                    for j in 0..2 {
+                                        let kind = *g.rng.pick(ELEMENT_KINDS);
+                                        let item = g.item_name();
+                                        let Some(xv) = ok_h(&g.push(Op::CreateNamed(en, n.elidx(kind), item))) else { continue };
+                                        let steps = 6 + g.rng.below(14) as usize;
+                                        enrich(g, xv, vold, steps);
+                                        for _ in 0..(1 + g.rng.below(2)) {
+                                            add_versioned_ref(g, xv, vold);
+                                        }
+                                        if j == 0 {
+                                            g.push(Op::Copy(eo, xv));
+                                        } else {
+                                            g.push(Op::CopyAt(eo, xv, 0));
+                                        }
+                                    }
+                                    g.push(Op::SerializeFile(fold));
+                                }
+                            }
+                        }
+                    }
+                }
+            }
             g.push(Op::Duplicate(0));
         }
     }
@@ -1279,6 +1327,9 @@ fn oracle_script(names: &Names, script: usize, probes: Vec<String>, ops: &[Op], 
                             fd.fail(script, opi, "VALIDATE", format!("classes={} op=[{}] src={} srcver={:?} dstver={:?} first={}", if cl.is_empty() { "-".to_string() } else { cl.join(",") }, op.line(), pc.src.element_name(), pc.src_ver.map(|x| x as u32), v as u32, first));
                         }
                     }
+                }
+                if pc.same_model && pc.src_ver.is_some() && pc.dst_ver.is_some() && pc.src_ver != pc.dst_ver {
+                    fd.count("copies_same_model_other_version");
                 }
                 if pc.src_local {
                     fd.count(if pc.same_model { "copies_of_restricted_source_same_model" } else { "copies_of_restricted_source_other_model" });
